@@ -139,3 +139,18 @@ Theorem C08_server_close_after_conforming_prefix_compressed_connection : forall 
      writes (k_tr c') = (OP_CLOSE, f_payload f) :: rev (pong_replies ms) ++ writes (k_tr c)).
 Proof. exact Proofs.CloseStreamZ.server_close_after_prefix_z. Qed.
 Print Assumptions C08_server_close_after_conforming_prefix_compressed_connection.
+
+(* ... and the client-initiated direction on such a connection: the client is closing, the server's Close followed by ANY
+   bytes: exactly one Closed with the server's code and reason, the websocket closed, not a single frame written *)
+Theorem C08_client_close_completed_compressed_connection : forall cf app, benign app ->
+  zpos (c_ping_timeout cf) = None -> zpos (c_close_timeout cf) = None ->
+  forall d c f lf code reason rest,
+  Proofs.CloseStreamZ.closing_idle_z d c ->
+  Proofs.DeliveryZ.zframe f -> f_rsv1 f = false -> f_op f = OP_CLOSE -> f_fin f = true -> blen (f_payload f) <= 125 ->
+  form_ok lf (blen (f_payload f)) = true ->
+  good_close (f_payload f) code reason ->
+  exists c', feedf cf app c (enc_frame f lf ++ rest) = (c', SOk) /\
+    msg_events (k_tr c') = EvClosed code reason :: msg_events (k_tr c) /\
+    k_closed c' = true /\ writes (k_tr c') = writes (k_tr c).
+Proof. exact Proofs.CloseStreamZ.client_close_completed_z. Qed.
+Print Assumptions C08_client_close_completed_compressed_connection.
